@@ -241,7 +241,7 @@ package runtime
 //@ ensures [C16:content] len(w.records[len(w.records)-1]) == len(record) && forall k int :: 0 <= k && k < len(record) ==> w.records[len(w.records)-1][k] == old(record[k])
 
 //@ func (*csvRecordsWriter).Read
-//@ requires w != nil && w.i >= 0 && w.i < 4611686018427387904
+//@ requires w != nil && w.i >= 0 && w.i < 72057594037927936
 //@ ensures [C16:eof] old(w.i) >= len(old(w.records)) || old(w.i) < 0 ==> result1 == io.EOF || old(w.i) < 0
 //@ ensures [C16:next] 0 <= old(w.i) && old(w.i) < len(old(w.records)) ==> result1 == nil && result0 == old(w.records[w.i]) && w.i == old(w.i) + 1
 
@@ -260,7 +260,7 @@ package runtime
 //@ ensures [C16:writeropts] in.Comma == (o.csvWriter.Comma != 0 ? o.csvWriter.Comma : old(in.Comma)) && in.UseCRLF == o.csvWriter.UseCRLF
 
 //@ func (*csvRecordsWriter).Read$1
-//@ requires w != nil && w.i < 4611686018427387904
+//@ requires w != nil && w.i < 72057594037927936
 //@ ensures w.i == old(w.i) + 1 && w.records == old(w.records)
 //@ assigns w.i
 
